@@ -16,6 +16,7 @@ type Generator struct {
 	plugin       *protogen.Plugin
 	generateMock bool
 	globalUnwrap *GlobalUnwrapInfo // Global unwrap info collected from all files
+	mockVisiting map[string]bool   // Message types currently being populated by the mock generator
 }
 
 // Options configures the generator.
